@@ -340,3 +340,955 @@ static ESys esys_of_gens(int n, const Gens& G) {
   T.s.push_back(Con(psum, Q(0), ref::LT));
   return T;
 }
+
+// ---------- reference helpers on shadows ----------
+static Shadow join_shadow(const Shadow& a, const Shadow& b) {
+  if (a.empty) return b; if (b.empty) return a;
+  Shadow r = a;
+  for (int k = 0; k < a.n; ++k) {
+    const Itv& x = a.iv[k]; const Itv& y = b.iv[k]; Itv& o = r.iv[k];
+    if (x.lo.inf || y.lo.inf) o.lo = Bnd(); else if (y.lo.v < x.lo.v) o.lo = y.lo; else if (y.lo.v == x.lo.v) o.lo.open = x.lo.open && y.lo.open;
+    if (x.hi.inf || y.hi.inf) o.hi = Bnd(); else if (y.hi.v > x.hi.v) o.hi = y.hi; else if (y.hi.v == x.hi.v) o.hi.open = x.hi.open && y.hi.open;
+  }
+  return r;
+}
+static Shadow meet_shadow(const Shadow& a, const Shadow& b) {
+  Shadow r = a; if (a.empty) return r; if (b.empty) return b;
+  for (int k = 0; k < a.n; ++k) { const Itv& y = b.iv[k]; if (!y.lo.inf) tighten_lo(r.iv[k], y.lo.v, y.lo.open); if (!y.hi.inf) tighten_hi(r.iv[k], y.hi.v, y.hi.open); if (itv_empty(r.iv[k])) r.empty = true; }
+  return r;
+}
+static Con con_of_cg_equality(const Congruence& cg, int n) {
+  Vec a(n); for (int d = 0; d < n && d < (int) cg.space_dimension(); ++d) a[d] = ref::toQ(cg.coefficient(Variable(d)));
+  return Con(a, Q(-ref::toQ(cg.inhomogeneous_term())), ref::EQ);
+}
+static bool sat_cg(const Congruence& cg, const Vec& x) {
+  Q v = ref::toQ(cg.inhomogeneous_term()); for (int d = 0; d < (int) cg.space_dimension() && d < (int) x.size(); ++d) v += ref::toQ(cg.coefficient(Variable(d))) * x[d];
+  if (cg.is_equality()) return v == 0;
+  Q k = v / ref::toQ(cg.modulus()); return k.get_den() == 1;
+}
+static std::string sgn_pattern(const Linear_Expression& e, int n) { std::string s; for (int i = 0; i < n; ++i) { int g = i < (int) e.space_dimension() ? sgn(e.coefficient(Variable(i))) : 0; s += g > 0 ? '+' : g < 0 ? '-' : '0'; } return s; }
+static bool unbounded_somewhere(const Shadow& S) { if (S.empty) return false; for (int k = 0; k < S.n; ++k) if (S.iv[k].lo.inf || S.iv[k].hi.inf) return true; return false; }
+
+struct StepCtx {
+  BoxI* A; const BoxI* B; int n, ai, bi; Shadow SA, SB; Sys sA, sB; std::string pre, stl, clsA, clsB;
+};
+static std::string ctx_of(const StepCtx& c, bool with_b) { return "receiver " + show(c.SA) + (with_b ? " argument " + show(c.SB) : ""); }
+static void note_op(const StepCtx& c, const std::string& name, const std::string& argcls, bool with_b) {
+  hx::count("op." + name);
+  if (nontrivial(c.clsA)) hx::distinct("op|" + INST + "|" + name + "|" + c.stl + "|" + c.clsA + "|" + argcls + (with_b ? "|" + c.clsB + (c.ai == c.bi ? "|alias" : "") : ""));
+}
+static std::string key_sound(const std::string& op, const std::string& cls) { return "C03.sound." + INST + "." + op + (cls.empty() ? "" : ":" + cls); }
+// kind: 0 soundness only, 1 exact (C04.exact), 2 best (C04.best)
+static void finish(const StepCtx& c, const std::string& op, const std::string& cls, const Target& T, int kind, bool with_b, const std::string& extra = "") {
+  Shadow R; if (!observe(*c.A, R, op)) return;
+  std::string ctx = ctx_of(c, with_b) + (extra.empty() ? "" : "; " + extra);
+  if (!check_sound(key_sound(op, cls), T, R, ctx)) return;
+  if (TI.exact && kind == 1) check_best("C04.exact.box." + op + (cls.empty() ? "" : ":" + cls), T, R, ctx);
+  else if (TI.exact && kind == 2) check_best("C04.best.box." + op, T, R, ctx);
+}
+
+
+// Runs f in a forked child; true iff the child died (signal / sanitizer abort).  Used only for call classes that
+// are known to kill the process, so that the defect gets a key and the worker survives.
+#include <sys/wait.h>
+#include <fcntl.h>
+static bool dies_in_child(const std::function<void()>& f) {
+  fflush(0);
+  pid_t pid = fork();
+  if (pid < 0) return false;
+  if (pid == 0) { int fd = open("/dev/null", O_WRONLY); if (fd >= 0) { dup2(fd, 2); dup2(fd, 1); } alarm(30); try { f(); } catch (...) {} _exit(0); }
+  int st = 0; if (waitpid(pid, &st, 0) < 0) return false;
+  hx::count("forked_probes");
+  return WIFSIGNALED(st) || (WIFEXITED(st) && WEXITSTATUS(st) != 0);
+}
+
+static bool mutate(StepCtx& c) {
+  BoxI& A = *c.A; const BoxI& B = *c.B; const int n = c.n;
+  const Sys& sA = c.sA; const Sys& sB = c.sB;
+  std::ostringstream t; t << c.pre;
+  std::string bref = "#" + std::to_string(c.bi);
+  int k = rnd(0, 99);
+  if (k < 9) { // add_constraint(s): interval constraints only
+    int which = rnd(0, 2); int cnt = which == 0 ? 1 : rnd(0, 3);
+    std::vector<Constraint> cv;
+    for (int i = 0; i < cnt; ++i) { if (n == 0 || coin(6)) cv.push_back(coin(70) ? Constraint(Linear_Expression(rnd(0, 2)) >= 0) : Constraint(Linear_Expression(-1) >= 0)); else cv.push_back(itv_con(n, TI.open)); }
+    Constraint_System cs; for (size_t i = 0; i < cv.size(); ++i) cs.insert(cv[i]);
+    const char* nm[3] = { "add_constraint", "add_constraints", "add_recycled_constraints" };
+    t << "." << nm[which] << "("; for (size_t i = 0; i < cv.size(); ++i) t << (i ? ", " : "") << str(cv[i]); t << ")"; tr(t.str()); note_op(c, nm[which], "", false);
+    if (which == 0) A.add_constraint(cv[0]); else if (which == 1) A.add_constraints(cs); else { Constraint_System tmp(cs); A.add_recycled_constraints(tmp); }
+    Sys T = sA; for (size_t i = 0; i < cv.size(); ++i) T.push_back(ref::conv(cv[i], n));
+    finish(c, nm[which], "", tgt(n, T), 1, false);
+    return true;
+  }
+  if (k < 18) { // refine_with_constraint(s): any constraint
+    bool many = coin(); int cnt = many ? rnd(0, 3) : 1;
+    std::vector<Constraint> cv; bool all_itv = true;
+    for (int i = 0; i < cnt; ++i) { Constraint cc = (n > 0 && coin(30)) ? itv_con(n, true) : gen_con(n, true); if (!is_interval_con(cc, n)) all_itv = false; cv.push_back(cc); }
+    Constraint_System cs; for (size_t i = 0; i < cv.size(); ++i) cs.insert(cv[i]);
+    std::string nm = many ? "refine_with_constraints" : "refine_with_constraint";
+    t << "." << nm << "("; for (size_t i = 0; i < cv.size(); ++i) t << (i ? ", " : "") << str(cv[i]); t << ")"; tr(t.str()); note_op(c, nm, all_itv ? "interval" : "general", false);
+    if (many) A.refine_with_constraints(cs); else A.refine_with_constraint(cv[0]);
+    Sys T = sA; for (size_t i = 0; i < cv.size(); ++i) T.push_back(ref::conv(cv[i], n));
+    finish(c, nm, all_itv ? "interval" : "general", tgt(n, T), 0, false);
+    return true;
+  }
+  if (k < 23) { // congruences
+    int which = rnd(0, 4); bool refine = which >= 3; int cnt = (which == 0 || which == 3) ? 1 : rnd(0, 2);
+    std::vector<Congruence> gv; bool proper = false;
+    for (int i = 0; i < cnt; ++i) {
+      if (refine) { Linear_Expression e = rexpr(n); int m = rnd(0, 3); Congruence cg = (e %= 0) / m; if (cg.is_proper_congruence() && !cg.is_tautological() && !cg.is_inconsistent()) proper = true; gv.push_back(cg); }
+      else if (n == 0 || coin(10)) gv.push_back((Linear_Expression(rnd(0, 2)) %= 0) / (coin() ? 0 : 1));
+      else { int v = rnd(0, n - 1); mpz_class d = coin(80) ? mpz_class(rnd(1, 3)) : big_den(); mpz_class b = coin(85) ? mpz_class(rnd(-6, 6)) : big_num(); gv.push_back((Coefficient(d) * Variable(v) %= Coefficient(b)) / 0); }
+    }
+    Congruence_System cgs; for (size_t i = 0; i < gv.size(); ++i) cgs.insert(gv[i]);
+    const char* nm[5] = { "add_congruence", "add_congruences", "add_recycled_congruences", "refine_with_congruence", "refine_with_congruences" };
+    t << "." << nm[which] << "("; for (size_t i = 0; i < gv.size(); ++i) t << (i ? ", " : "") << str(gv[i]); t << ")"; tr(t.str()); note_op(c, nm[which], proper ? "proper" : "eq", false);
+    switch (which) { case 0: A.add_congruence(gv[0]); break; case 1: A.add_congruences(cgs); break; case 2: { Congruence_System tmp(cgs); A.add_recycled_congruences(tmp); break; } case 3: A.refine_with_congruence(gv[0]); break; default: A.refine_with_congruences(cgs); }
+    Sys T = sA;
+    for (size_t i = 0; i < gv.size(); ++i) { if (gv[i].is_equality()) T.push_back(con_of_cg_equality(gv[i], n)); else if (gv[i].is_inconsistent()) { Vec z(n); T.push_back(Con(z, Q(-1), ref::LE)); } }
+    if (!proper) { finish(c, nm[which], "", tgt(n, T), refine ? 0 : 1, false); return true; }
+    // with proper congruences the exact result is not polyhedral: a lost point counts only if it satisfies them
+    Shadow R; if (!observe(A, R, nm[which])) return true;
+    Shadow keep = R; (void) keep;
+    // R must contain (A and equalities) intersected with the lattice; check the polyhedral relaxation, confirm witnesses
+    {
+      Target TT = tgt(n, T); const ESys& P = TT.pieces[0]; checked(); hx::count("sound_checks");
+      bool bad = false; Vec w;
+      if (R.empty) bad = ref::feasible(n, P.s, &w);
+      else for (int kk = 0; kk < n && !bad; ++kk) for (int side = 0; side < 2 && !bad; ++side) { const Bnd& b = side ? R.iv[kk].hi : R.iv[kk].lo; if (b.inf) continue; Vec a(n); Con neg; if (side == 0) { a[kk] = 1; neg = Con(a, b.v, b.open ? ref::LE : ref::LT); } else { a[kk] = -1; neg = Con(a, Q(-b.v), b.open ? ref::LE : ref::LT); } Sys s = P.s; s.push_back(neg); if (ref::feasible(n, s, &w)) bad = true; }
+      if (bad) {
+        bool all = true; for (size_t i = 0; i < gv.size(); ++i) if (!sat_cg(gv[i], w)) all = false;
+        if (all && ref::sat(P.s, w) && !member(R, w)) violation(key_sound(nm[which], "proper-congruence"), "point " + show(w) + " satisfies the receiver and the congruences but is outside the result " + show(R) + "; " + ctx_of(c, false));
+        else hx::inconclusive("congruence_witness");
+      }
+    }
+    return true;
+  }
+  if (k < 28) { // propagate_constraint(s)
+    bool many = coin(); int cnt = many ? rnd(1, 3) : 1;
+    std::vector<Constraint> cv; for (int i = 0; i < cnt; ++i) cv.push_back(gen_con(n, true));
+    Constraint_System cs; for (size_t i = 0; i < cv.size(); ++i) cs.insert(cv[i]);
+    static const int its[5] = { 1, 2, 3, 5, 20 }; int mi = its[rnd(0, 4)];
+    std::string nm = many ? "propagate_constraints" : "propagate_constraint";
+    t << "." << nm << "("; for (size_t i = 0; i < cv.size(); ++i) t << (i ? ", " : "") << str(cv[i]); if (many) t << "; max_iterations=" << mi; t << ")"; tr(t.str()); note_op(c, nm, "", false);
+    if (many) A.propagate_constraints(cs, mi); else A.propagate_constraint(cv[0]);
+    Sys T = sA; for (size_t i = 0; i < cv.size(); ++i) T.push_back(ref::conv(cv[i], n));
+    finish(c, nm, "", tgt(n, T), 0, false);
+    return true;
+  }
+  if (k < 33) { tr(c.pre + ".intersection_assign(" + bref + ")"); note_op(c, "intersection_assign", "", true);
+    A.intersection_assign(B); Sys T = sA; T.insert(T.end(), sB.begin(), sB.end());
+    finish(c, "intersection_assign", "", tgt(n, T), 1, true); return true; }
+  if (k < 38) { tr(c.pre + ".upper_bound_assign(" + bref + ")"); note_op(c, "upper_bound_assign", "", true);
+    A.upper_bound_assign(B); Target T; T.n = n; T.pieces.push_back(ref::esys_of(sA, n)); T.pieces.push_back(ref::esys_of(sB, n));
+    finish(c, "upper_bound_assign", "", T, 2, true); return true; }
+  if (k < 43) { tr(c.pre + ".upper_bound_assign_if_exact(" + bref + ")"); note_op(c, "upper_bound_assign_if_exact", "", true);
+    bool res = A.upper_bound_assign_if_exact(B);
+    hx::trace() += res ? " -> true" : " -> false";
+    Shadow R; if (!observe(A, R, "upper_bound_assign_if_exact")) return true;
+    std::string ctx = ctx_of(c, true);
+    std::vector<Sys> V; V.push_back(sA); V.push_back(sB);
+    if (res) {
+      Target T; T.n = n; T.pieces.push_back(ref::esys_of(sA, n)); T.pieces.push_back(ref::esys_of(sB, n));
+      if (!check_sound(key_sound("upper_bound_assign_if_exact", ""), T, R, ctx)) return true;
+      std::vector<Sys> U; U.push_back(to_sys(R)); Vec wit; int r = ref::union_included(n, U, V, &wit); checked();
+      if (r == 0) { if (!member(R, wit) || member(c.SA, wit) || member(c.SB, wit)) violation("harness.bug.union_witness", "upper_bound_assign_if_exact"); else violation("C03.definite." + INST + ".upper_bound_assign_if_exact", "returned true but point " + show(wit) + " of the result " + show(R) + " is in neither argument; " + ctx); }
+      else if (r < 0) hx::inconclusive("union_cap");
+    } else {
+      if (TI.exact) { checked(); if (!same_shadow(R, c.SA)) { violation("C04.exact.box.upper_bound_assign_if_exact:false-but-changed", "returned false but the receiver changed to " + show(R) + "; " + ctx); return true; } }
+      else if (!check_sound(key_sound("upper_bound_assign_if_exact", "false"), tgt(n, sA), R, ctx)) return true;
+      Shadow H = join_shadow(c.SA, c.SB); std::vector<Sys> U; U.push_back(to_sys(H)); int r = ref::union_included(n, U, V, 0); checked();
+      if (r == 1) { if (TI.exact) violation("C04.exact.box.upper_bound_assign_if_exact:false-but-union-is-a-box", "returned false although the union is the box " + show(H) + "; " + ctx); else hx::count("imprecise.upper_bound_assign_if_exact"); }
+      else if (r < 0) hx::inconclusive("union_cap");
+    }
+    return true; }
+  if (k < 48) { tr(c.pre + ".difference_assign(" + bref + ")"); note_op(c, "difference_assign", "", true);
+    A.difference_assign(B);
+    Target T; T.n = n;
+    if (c.SB.empty) T.pieces.push_back(ref::esys_of(sA, n));
+    else { std::vector<Sys> pc = ref::difference_pieces(n, sA, sB); for (size_t i = 0; i < pc.size(); ++i) T.pieces.push_back(ref::esys_of(pc[i], n)); }
+    finish(c, "difference_assign", "", T, 2, true); return true; }
+  if (n >= 1 && k < 58) { // affine image / preimage
+    bool pre = coin(); int v = rnd(0, n - 1); Linear_Expression e = rexpr(n); Coefficient d = rden();
+    std::string nm = pre ? "affine_preimage" : "affine_image";
+    int nv = nvars_of(e, n); bool self = e.coefficient(Variable(v)) != 0;
+    bool expressible = (nv == 0) || (nv == 1 && self);
+    std::string cls = expressible ? (nv == 0 ? "constant" : "self-only") : "general";
+    t << "." << nm << "(" << str(Variable(v)) << ", " << str(e) << ", " << d << ")"; tr(t.str()); note_op(c, nm, cls + sgn_pattern(e, n) + (d < 0 ? "/-" : "/+"), false);
+    if (pre) A.affine_preimage(Variable(v), e, d); else A.affine_image(Variable(v), e, d);
+    Vec ea; Q eb; ref::conv(e, n, ea, eb);
+    finish(c, nm, cls, tgt(ref::def_gen_affine(sA, n, v, 2, ea, eb, ref::toQ(d), pre)), expressible ? 1 : 0, false);
+    return true; }
+  if (n >= 1 && k < 67) { // generalized affine image / preimage, variable form
+    bool pre = coin(); int v = rnd(0, n - 1); Linear_Expression e = rexpr(n); Coefficient d = rden(); int ri = rnd(0, 4);
+    std::string nm = pre ? "generalized_affine_preimage" : "generalized_affine_image";
+    bool self = e.coefficient(Variable(v)) != 0;
+    std::string cls = std::string(self ? "self" : "noself") + (ri == 2 ? "+eq" : "");
+    t << "." << nm << "(" << str(Variable(v)) << ", " << REL5S[ri] << ", " << str(e) << ", " << d << ")"; tr(t.str()); note_op(c, nm, cls + sgn_pattern(e, n) + (d < 0 ? "/-" : "/+") + REL5S[ri], false);
+    if (pre) A.generalized_affine_preimage(Variable(v), REL5[ri], e, d); else A.generalized_affine_image(Variable(v), REL5[ri], e, d);
+    Vec ea; Q eb; ref::conv(e, n, ea, eb);
+    finish(c, nm, cls, tgt(ref::def_gen_affine(sA, n, v, ri, ea, eb, ref::toQ(d), pre)), 0, false);
+    return true; }
+  if (n >= 1 && k < 75) { // generalized affine image / preimage, lhs/rhs form
+    bool pre = coin(); Linear_Expression l = rexpr(n, 55), r = rexpr(n); int ri = rnd(0, 4);
+    std::string nm = pre ? "generalized_affine_preimage_lr" : "generalized_affine_image_lr";
+    int lv = nvars_of(l, n);
+    std::string cls = lv == 0 ? "lhs-constant" : lv == 1 ? "lhs-1var" : lv == 2 ? "lhs-2vars" : "lhs-3+vars";
+    if (pre) { bool only_lhs = false; for (int i = 0; i < n; ++i) if (i < (int) l.space_dimension() && l.coefficient(Variable(i)) != 0 && (i >= (int) r.space_dimension() || r.coefficient(Variable(i)) == 0)) only_lhs = true; if (only_lhs) cls += "+lhs-var-not-in-rhs"; }
+    t << "." << nm << "(" << str(l) << ", " << REL5S[ri] << ", " << str(r) << ")"; tr(t.str()); note_op(c, nm, cls + sgn_pattern(l, n) + sgn_pattern(r, n) + REL5S[ri], false);
+    if (pre) A.generalized_affine_preimage(l, REL5[ri], r); else A.generalized_affine_image(l, REL5[ri], r);
+    Vec la, ra; Q lb, rb; ref::conv(l, n, la, lb); ref::conv(r, n, ra, rb);
+    finish(c, nm, cls, tgt(ref::def_gen_affine_lr(sA, n, la, lb, ri, ra, rb, pre)), 0, false);
+    return true; }
+  if (n >= 1 && k < 84) { // bounded affine image / preimage
+    bool pre = coin(); int v = rnd(0, n - 1); Linear_Expression lb = rexpr(n), ub = rexpr(n); Coefficient d = rden();
+    std::string nm = pre ? "bounded_affine_preimage" : "bounded_affine_image";
+    bool sl = lb.coefficient(Variable(v)) != 0, su = ub.coefficient(Variable(v)) != 0;
+    std::string cls = std::string(d < 0 ? "neg-den" : "pos-den") + (sl && su ? "+var-in-both" : sl ? "+var-in-lb" : su ? "+var-in-ub" : "+var-in-none");
+    t << "." << nm << "(" << str(Variable(v)) << ", " << str(lb) << ", " << str(ub) << ", " << d << ")"; tr(t.str()); note_op(c, nm, cls + sgn_pattern(lb, n) + sgn_pattern(ub, n), false);
+    bool lo_bounded = c.SA.empty ? c.stl.find("+EM") == std::string::npos : !c.SA.iv[v].lo.inf, hi_bounded = c.SA.empty ? c.stl.find("+EM") == std::string::npos : !c.SA.iv[v].hi.inf;
+    if (pre && ((!su && lo_bounded) || (!sl && hi_bounded))) {
+      // known process-killing class (division by the zero coefficient of var): probe in a child first
+      if (dies_in_child([&]() { BP x(A.clone()); x->bounded_affine_preimage(Variable(v), lb, ub, d); })) {
+        checked(); violation("C03.crash." + INST + ".bounded_affine_preimage:" + (!su && lo_bounded ? "var-not-in-ub+var-bounded-below" : "var-not-in-lb+var-bounded-above"), "the call kills the process (SIGFPE / sanitizer abort); " + ctx_of(c, false));
+        return true;
+      }
+    }
+    if (pre) A.bounded_affine_preimage(Variable(v), lb, ub, d); else A.bounded_affine_image(Variable(v), lb, ub, d);
+    Vec la, ua; Q lbb, ubb; ref::conv(lb, n, la, lbb); ref::conv(ub, n, ua, ubb);
+    finish(c, nm, cls, tgt(ref::def_bounded_affine(sA, n, v, la, lbb, ua, ubb, ref::toQ(d), pre)), 0, false);
+    return true; }
+  if (n >= 1 && k < 87) { // unconstrain
+    bool set = coin(); std::vector<bool> vars(n, false); Variables_Set vs;
+    if (set) { for (int i = 0; i < n; ++i) if (coin(40)) { vars[i] = true; vs.insert(Variable(i)); } } else { int v = rnd(0, n - 1); vars[v] = true; vs.insert(Variable(v)); }
+    std::string nm = set ? "unconstrain_set" : "unconstrain";
+    t << "." << nm << "(" << str(vs) << ")"; tr(t.str()); note_op(c, nm, "", false);
+    if (set) A.unconstrain(vs); else A.unconstrain(Variable(*vs.begin()));
+    finish(c, nm, "", tgt(ref::def_unconstrain(sA, n, vars)), 1, false);
+    return true; }
+  if (k < 90) { tr(c.pre + ".time_elapse_assign(" + bref + ")"); note_op(c, "time_elapse_assign", "", true);
+    A.time_elapse_assign(B);
+    Target T; T.n = n;
+    if (!c.SA.empty && !c.SB.empty) {
+      T.pieces.push_back(ref::esys_of(sA, n));   // lambda = 0
+      // x = p + z, p in A, z = lambda q with q in B, lambda > 0:  a.z REL lambda b
+      ESys P; P.n = n; P.aux = 2 * n + 1; int nv = P.n + P.aux; int offp = n, offz = 2 * n, lam = 3 * n;
+      for (size_t i = 0; i < sA.size(); ++i) P.s.push_back(ref::shift(sA[i], nv, offp));
+      for (size_t i = 0; i < sB.size(); ++i) { Con cc = ref::shift(sB[i], nv, offz); cc.a[lam] = -sB[i].b; cc.b = 0; P.s.push_back(cc); }
+      { Vec a(nv); a[lam] = -1; P.s.push_back(Con(a, Q(0), ref::LT)); }
+      for (int d = 0; d < n; ++d) { Vec a(nv); a[d] = 1; a[offp + d] = -1; a[offz + d] = -1; P.s.push_back(Con(a, Q(0), ref::EQ)); }
+      T.pieces.push_back(P);
+    }
+    finish(c, "time_elapse_assign", "", T, 0, true); return true; }
+  if (k < 92) { tr(c.pre + ".topological_closure_assign()"); note_op(c, "topological_closure_assign", "", false);
+    A.topological_closure_assign(); Sys T = c.SA.empty ? sA : ref::closure_of(sA);
+    finish(c, "topological_closure_assign", "", tgt(n, T), 1, false); return true; }
+  if (k < 96) { tr(c.pre + ".simplify_using_context_assign(" + bref + ")"); note_op(c, "simplify_using_context_assign", "", true);
+    bool res = A.simplify_using_context_assign(B);
+    hx::trace() += res ? " -> true" : " -> false";
+    Shadow R; if (!observe(A, R, "simplify_using_context_assign")) return true;
+    Sys M = sA; M.insert(M.end(), sB.begin(), sB.end()); bool meet_empty = !ref::feasible(n, M);
+    if (!check_bool("simplify_using_context_assign", !res, meet_empty, "false means: the intersection is empty; " + ctx_of(c, true))) return true;
+    if (res) check_sound(key_sound("simplify_using_context_assign", ""), tgt(n, M), meet_shadow(R, c.SB), "checked: (result meet context) contains (receiver meet context); result " + show(R) + "; " + ctx_of(c, true));
+    return true; }
+  { // copy / assignment / swap
+    int how = rnd(0, 2);
+    if (how == 0) { tr(c.pre + " = " + bref); hx::count("op.assign"); A.assign(B); Shadow R; if (!observe(A, R, "assign")) return true; checked(); if (!same_shadow(R, c.SB)) violation(key_sound("assign", ""), "assigned value " + show(R) + " differs from the source " + show(c.SB)); }
+    else if (how == 1) { tr(c.pre + ".clone()"); hx::count("op.copy"); BP cp(A.clone()); Shadow R; if (!observe(*cp, R, "copy")) return true; checked(); if (!same_shadow(R, c.SA)) violation(key_sound("copy", ""), "copy " + show(R) + " differs from the source " + show(c.SA)); }
+    else if (c.ai != c.bi) { tr(c.pre + ".m_swap(" + bref + ")"); hx::count("op.m_swap"); BP other(B.clone()); A.m_swap(*other); Shadow R, R2; if (!observe(A, R, "m_swap") || !observe(*other, R2, "m_swap")) return true; checked(); if (!same_shadow(R, c.SB) || !same_shadow(R2, c.SA)) violation(key_sound("m_swap", ""), "swap did not exchange the values"); }
+    return true;
+  }
+}
+
+// ---------- queries ----------
+static Q expr_value(const Vec& ea, const Q& eb, const Vec& x) { return ref::dot(ea, x) + eb; }
+static bool has_int(const Itv& i) {
+  if (itv_empty(i)) return false;
+  if (i.lo.inf || i.hi.inf) return true;
+  mpz_class L, U;
+  mpz_cdiv_q(L.get_mpz_t(), i.lo.v.get_num_mpz_t(), i.lo.v.get_den_mpz_t()); if (i.lo.open && Q(L) == i.lo.v) ++L;
+  mpz_fdiv_q(U.get_mpz_t(), i.hi.v.get_num_mpz_t(), i.hi.v.get_den_mpz_t()); if (i.hi.open && Q(U) == i.hi.v) --U;
+  return L <= U;
+}
+static void run_queries(StepCtx& c) {
+  BoxI& A = *c.A; const BoxI& B = *c.B; const int n = c.n; const Shadow& SA = c.SA; const Shadow& SB = c.SB; const Sys& sA = c.sA; const Sys& sB = c.sB;
+  bool ne = !SA.empty;
+  std::string ctx = ctx_of(c, false);
+  int which = rnd(0, 12);
+  if (nontrivial(c.clsA)) hx::distinct("query|" + INST + "|" + std::to_string(which) + "|" + c.stl + "|" + c.clsA);
+  switch (which) {
+  case 0: {
+    tr(c.pre + ".preds()");
+    bool univ = ne, bounded = true, closed = true, discrete = true;
+    if (ne) for (int k = 0; k < n; ++k) { const Itv& i = SA.iv[k]; if (!i.lo.inf || !i.hi.inf) univ = false; if (i.lo.inf || i.hi.inf) bounded = false; if ((!i.lo.inf && i.lo.open) || (!i.hi.inf && i.hi.open)) closed = false; if (i.lo.inf || i.hi.inf || i.lo.v != i.hi.v) discrete = false; }
+    if (!check_bool("is_universe", A.is_universe(), univ, ctx)) return;
+    if (!check_bool("is_bounded", A.is_bounded(), bounded, ctx)) return;
+    if (!check_bool("is_topologically_closed", A.is_topologically_closed(), closed, ctx)) return;
+    if (!check_bool("is_discrete", A.is_discrete(), discrete, ctx)) return;
+    if (!check_bool("is_empty", A.is_empty(), !ne, ctx)) return;
+    break; }
+  case 1: case 2: {
+    tr(c.pre + ".binary_preds(#" + std::to_string(c.bi) + ")");
+    std::string cx = ctx_of(c, true);
+    bool rc = sys_included(n, sB, sA), rcb = sys_included(n, sA, sB);
+    if (!check_bool("contains", A.contains(B), rc, cx)) return;
+    if (!check_bool("strictly_contains", A.strictly_contains(B), rc && !rcb, cx)) return;
+    Sys T = sA; T.insert(T.end(), sB.begin(), sB.end());
+    if (!check_bool("is_disjoint_from", A.is_disjoint_from(B), !ref::feasible(n, T), cx)) return;
+    if (!check_bool("equals", A.equals(B), rc && rcb, cx)) return;
+    break; }
+  case 3: case 4: {
+    Constraint cc = (n > 0 && coin(40)) ? itv_con(n, true) : gen_con(n, true);
+    tr(c.pre + ".relation_with(" + str(cc) + ")");
+    Poly_Con_Relation r = A.relation_with(cc);
+    Con rc = ref::conv(cc, n);
+    Sys T = sA; T.push_back(rc);
+    bool nonempty_meet = ref::feasible(n, T);
+    bool included = sys_included(n, sA, Sys(1, rc));
+    Con hyp = rc; hyp.rel = ref::EQ;
+    bool saturates = sys_included(n, sA, Sys(1, hyp));
+    std::string d = str(cc) + " -> " + str(r) + "; " + ctx;
+    if (!check_bool("relation_with_c.is_disjoint", r.implies(Poly_Con_Relation::is_disjoint()), !nonempty_meet, d)) return;
+    if (!check_bool("relation_with_c.is_included", r.implies(Poly_Con_Relation::is_included()), included, d)) return;
+    if (!check_bool("relation_with_c.saturates", r.implies(Poly_Con_Relation::saturates()), saturates, d)) return;
+    if (!check_bool("relation_with_c.strictly_intersects", r.implies(Poly_Con_Relation::strictly_intersects()), nonempty_meet && !included, d)) return;
+    break; }
+  case 5: {
+    Linear_Expression e = rexpr(n); int m = rnd(0, 4); Congruence cg = (e %= 0) / m;
+    tr(c.pre + ".relation_with(" + str(cg) + ")");
+    Poly_Con_Relation r = A.relation_with(cg);
+    if (cg.is_equality()) return;   // same as relation_with(Constraint)
+    Vec ea(n); for (int d = 0; d < n && d < (int) cg.space_dimension(); ++d) ea[d] = ref::toQ(cg.coefficient(Variable(d)));
+    Q eb = ref::toQ(cg.inhomogeneous_term()); Q mq = ref::toQ(cg.modulus());
+    bool included, disjoint;
+    if (!ne) { included = true; disjoint = true; }
+    else {
+      Vec nea(n); for (int i = 0; i < n; ++i) nea[i] = -ea[i];
+      ref::SupResult hi = ref::supremum(n, sA, ea), lo = ref::supremum(n, sA, nea);
+      if (hi.bounded && lo.bounded && hi.sup == -lo.sup) { Q val = hi.sup + eb; Q kq = val / mq; included = (kq.get_den() == 1); disjoint = !included; }
+      else {
+        included = false; bool found;
+        if (!lo.bounded || !hi.bounded) found = true;
+        else {
+          Q l = -lo.sup + eb, u = hi.sup + eb; Q kl = l / mq; mpz_class kc; mpz_cdiv_q(kc.get_mpz_t(), kl.get_num_mpz_t(), kl.get_den_mpz_t());
+          Q cand = Q(kc) * mq;
+          if (cand == l && !lo.attained) cand += mq;
+          found = (cand < u) || (cand == u && hi.attained);
+        }
+        disjoint = !found;
+      }
+    }
+    std::string d = str(cg) + " -> " + str(r) + "; " + ctx;
+    if (!check_bool("relation_with_cg.is_disjoint", r.implies(Poly_Con_Relation::is_disjoint()), disjoint, d)) return;
+    if (!check_bool("relation_with_cg.is_included", r.implies(Poly_Con_Relation::is_included()), included, d)) return;
+    if (!check_bool("relation_with_cg.strictly_intersects", r.implies(Poly_Con_Relation::strictly_intersects()), !disjoint && !included, d)) return;
+    break; }
+  case 6: {
+    Generator g = rgen(n, true, false);
+    tr(c.pre + ".relation_with(" + str(g) + ")");
+    Poly_Gen_Relation r = A.relation_with(g);
+    Gen rg = ref::conv(g, n); bool subs;
+    if (!ne) subs = false;
+    else if (rg.kind == Gen::POINT) subs = member(SA, rg.v);
+    else if (rg.kind == Gen::CLOSURE_POINT) subs = ref::sat(ref::closure_of(sA), rg.v);
+    else { subs = true; for (int k = 0; k < n && subs; ++k) { if (rg.v[k] > 0 || (rg.kind == Gen::LINE && rg.v[k] != 0)) if (!SA.iv[k].hi.inf) subs = false; if (rg.v[k] < 0 || (rg.kind == Gen::LINE && rg.v[k] != 0)) if (!SA.iv[k].lo.inf) subs = false; } }
+    check_bool("relation_with_g.subsumes", r.implies(Poly_Gen_Relation::subsumes()), subs, str(g) + "; " + ctx);
+    break; }
+  case 7: case 8: {
+    Linear_Expression e = rexpr(n, 30); bool mx = (which == 7);
+    tr(c.pre + (mx ? ".maximize(" : ".minimize(") + str(e) + ")");
+    Coefficient num, den; bool att = false; Generator g(point());
+    bool ok = mx ? A.maximize(e, num, den, att, g) : A.minimize(e, num, den, att, g);
+    Coefficient num2, den2; bool att2 = false; bool ok2 = mx ? A.maximize(e, num2, den2, att2) : A.minimize(e, num2, den2, att2);
+    bool bf = mx ? A.bounds_from_above(e) : A.bounds_from_below(e);
+    Vec oe; Q ob; ref::conv(e, n, oe, ob); Vec ea = oe; if (!mx) for (size_t i = 0; i < ea.size(); ++i) ea[i] = -ea[i];
+    ref::SupResult s = ref::supremum(n, sA, ea);
+    std::string d = str(e) + "; " + ctx; std::string qn = mx ? "maximize" : "minimize";
+    if (ne && !check_bool(mx ? "bounds_from_above" : "bounds_from_below", bf, s.bounded, d)) return;
+    if (!check_bool(qn + ".status", ok, s.nonempty && s.bounded, d)) return;
+    checked(); if (ok2 != ok) { violation((TI.exact ? "C04.pred.box." : "C03.definite." + INST + ".") + qn + ".overloads_disagree", d); return; }
+    if (!ok) return;
+    Q val = ref::toQ(num) / ref::toQ(den); Q rv = mx ? Q(s.sup + ob) : Q(-s.sup + ob);
+    checked();
+    if (val != rv) {
+      std::ostringstream o; o << "PPL " << val << " reference " << rv << "; " << d;
+      bool unsafe = mx ? (val < rv) : (val > rv);
+      if (unsafe) { violation("C03.definite." + INST + "." + qn + ".value", o.str()); return; }
+      if (TI.exact) { violation("C04.pred.box." + qn + ".value", o.str()); return; }
+      hx::count("imprecise." + qn); return;
+    }
+    if (ref::toQ(num2) / ref::toQ(den2) != val || att2 != att) { violation((TI.exact ? "C04.pred.box." : "C03.definite." + INST + ".") + qn + ".overloads_disagree", "value/flag; " + d); return; }
+    if (!check_bool(qn + ".attained", att, s.attained, d)) return;
+    Gen rg = ref::conv(g, n);
+    checked();
+    if (expr_value(oe, ob, rg.v) != val) { violation((TI.exact ? "C04.pred.box." : "C03.definite." + INST + ".") + qn + ".witness_value", "witness " + str(g) + " does not evaluate to the optimum; " + d); return; }
+    Sys cl = att ? sA : ref::closure_of(sA);
+    if (!ref::sat(cl, rg.v)) { violation((TI.exact ? "C04.pred.box." : "C03.definite." + INST + ".") + qn + ".witness_member", "witness " + str(g) + " not in the box (closure when not attained); " + d); return; }
+    break; }
+  case 9: {
+    tr(c.pre + ".affine_dimension()");
+    int ad = A.affine_dimension(); int rad = 0;
+    if (ne) for (int k = 0; k < n; ++k) { Vec a(n); a[k] = 1; ref::SupResult u = ref::supremum(n, sA, a); a[k] = -1; ref::SupResult l = ref::supremum(n, sA, a); if (!(u.bounded && l.bounded && u.sup == -l.sup)) ++rad; }
+    checked(); hx::count("q.affine_dimension");
+    if (ad != rad) { std::ostringstream o; o << "PPL " << ad << " reference " << rad << "; " << ctx; if (TI.exact) violation("C04.pred.box.affine_dimension", o.str()); else if (ad < rad) violation("C03.definite." + INST + ".affine_dimension", o.str()); else hx::count("imprecise.affine_dimension"); return; }
+    if (n > 0) { int v = rnd(0, n - 1); hx::trace() += ".constrains(" + str(Variable(v)) + ")"; bool cs = A.constrains(Variable(v)); if (ne) { bool rcs = !SA.iv[v].lo.inf || !SA.iv[v].hi.inf; check_bool("constrains", cs, rcs, str(Variable(v)) + "; " + ctx, false); } }
+    break; }
+  case 10: {
+    Linear_Expression e = rexpr(n, 30); tr(c.pre + ".frequency(" + str(e) + ")");
+    Coefficient fn, fd, vn, vd; bool f = A.frequency(e, fn, fd, vn, vd);
+    Vec ea; Q eb; ref::conv(e, n, ea, eb); Vec nea(n); for (int i = 0; i < n; ++i) nea[i] = -ea[i];
+    bool rconst = false; Q val;
+    if (ne) { ref::SupResult hi = ref::supremum(n, sA, ea), lo = ref::supremum(n, sA, nea); if (hi.bounded && lo.bounded && hi.sup == -lo.sup) { rconst = true; val = hi.sup + eb; } }
+    if (!check_bool("frequency.status", f, rconst, str(e) + "; " + ctx)) return;
+    checked(); if (f && (fn != 0 || ref::toQ(vn) / ref::toQ(vd) != val)) violation("C03.definite." + INST + ".frequency.value", "wrong frequency/value for " + str(e) + "; " + ctx);
+    break; }
+  case 11: {
+    tr(c.pre + ".contains_integer_point()");
+    bool cip = A.contains_integer_point(); bool truth = ne; if (ne) for (int k = 0; k < n; ++k) if (!has_int(SA.iv[k])) truth = false;
+    checked(); hx::count("q.contains_integer_point");
+    if (cip != truth) {
+      // independent re-validation: exhibit an integer point, or a dimension without one
+      std::string cls = !ne ? "empty-receiver" : cip ? "true-but-none" : "false-but-exists";
+      violation("C17.box." + INST + ".contains_integer_point.wrong:" + cls, std::string("PPL ") + (cip ? "true" : "false") + "; " + ctx + "; status " + c.stl);
+    }
+    break; }
+  case 12: {
+    tr(c.pre + ".descriptions()");
+    // has_lower_bound / has_upper_bound, minimized_constraints, congruences
+    if (n > 0 && ne) {
+      int v = rnd(0, n - 1); Coefficient bn, bd; bool closed = false;
+      bool hl = A.has_lower_bound(Variable(v), bn, bd, closed); const Bnd& lo = SA.iv[v].lo;
+      checked(); hx::count("q.has_bound");
+      if (hl == lo.inf || (hl && (ref::toQ(bn) / ref::toQ(bd) != lo.v || closed == lo.open))) { violation((TI.exact ? "C04.pred.box." : "C03.definite." + INST + ".") + "has_lower_bound", "dimension " + std::to_string(v) + "; " + ctx); return; }
+      bool hu = A.has_upper_bound(Variable(v), bn, bd, closed); const Bnd& hi = SA.iv[v].hi;
+      if (hu == hi.inf || (hu && (ref::toQ(bn) / ref::toQ(bd) != hi.v || closed == hi.open))) { violation((TI.exact ? "C04.pred.box." : "C03.definite." + INST + ".") + "has_upper_bound", "dimension " + std::to_string(v) + "; " + ctx); return; }
+    }
+    { BP cp(A.clone()); Sys M = ref::conv(cp->minimized_constraints(), n); Shadow SM; std::string err; checked();
+      if (!shadow_of_sys(n, M, SM, err) || !same_shadow(SM, SA)) { violation("C03.sound." + INST + ".minimized_constraints:differs-from-intervals", "minimized_constraints() " + show(M) + "; " + ctx); return; } }
+    { BP cp(A.clone()); Congruence_System cg = coin() ? cp->congruences() : cp->minimized_congruences(); checked();
+      int fixed = 0; if (ne) for (int k = 0; k < n; ++k) if (!SA.iv[k].lo.inf && !SA.iv[k].hi.inf && SA.iv[k].lo.v == SA.iv[k].hi.v) ++fixed;
+      int eqs = 0;
+      for (Congruence_System::const_iterator i = cg.begin(); i != cg.end(); ++i) {
+        if (i->is_tautological()) continue;
+        if (i->is_inconsistent()) { if (ne) { violation("C03.sound." + INST + ".congruences", "inconsistent congruence reported for a non-empty box; " + ctx); return; } continue; }
+        if (!i->is_equality()) { violation("C03.sound." + INST + ".congruences", "proper congruence " + str(*i) + " reported for a box; " + ctx); return; }
+        ++eqs;
+        if (!sys_included(n, sA, Sys(1, con_of_cg_equality(*i, n)))) { violation("C03.sound." + INST + ".congruences", "reported equality " + str(*i) + " is not satisfied by the box; " + ctx); return; }
+      }
+      if (TI.exact && ne && eqs != fixed) violation("C04.pred.box.congruences", "box has " + std::to_string(fixed) + " fixed dimensions but " + std::to_string(eqs) + " equalities were reported; " + ctx);
+    }
+    A.misc_observers();
+    break; }
+  }
+}
+
+// ---------- twins (Rational_Box): equal point sets compare equal whatever their history ----------
+static void twin_check(StepCtx& c) {
+  BoxI& A = *c.A; const int n = c.n; const Shadow& SA = c.SA; const Sys& sA = c.sA;
+  int how = rnd(0, 4);
+  BP T(A.make(n, false));
+  std::string hs;
+  if (SA.empty) {
+    int e = rnd(0, 3);
+    if (e == 0 || n == 0) { T.reset(A.make(n, true)); hs = "marked empty"; }
+    else if (e == 1) { int v = rnd(0, n - 1); T->add_constraint(Variable(v) >= 1); T->add_constraint(Variable(v) <= 0); hs = "crossing bounds"; }
+    else if (e == 2) { int v = rnd(0, n - 1); T->add_constraint(Variable(v) > 0); T->add_constraint(Variable(v) <= 0); hs = "open/closed clash"; }
+    else { T->refine_with_constraint(Linear_Expression(0) > 0); hs = "0 > 0"; }
+  } else {
+    std::vector<Constraint> cv;
+    for (int k = 0; k < n; ++k) {
+      const Itv& i = SA.iv[k];
+      if (!i.lo.inf) { Coefficient num(i.lo.v.get_num()), den(i.lo.v.get_den()); cv.push_back(i.lo.open ? Constraint(den * Variable(k) > num) : Constraint(den * Variable(k) >= num)); }
+      if (!i.hi.inf) { Coefficient num(i.hi.v.get_num()), den(i.hi.v.get_den()); cv.push_back(i.hi.open ? Constraint(den * Variable(k) < num) : Constraint(den * Variable(k) <= num)); }
+    }
+    std::shuffle(cv.begin(), cv.end(), hx::rng());
+    if (how == 0) { for (size_t i = 0; i < cv.size(); ++i) { T->add_constraint(cv[i]); if (coin(30)) { Linear_Expression e(cv[i].expression()); e *= rnd(2, 3); T->refine_with_constraint(cv[i].is_strict_inequality() ? Constraint(e > 0) : Constraint(e >= 0)); } } hs = "shuffled/scaled constraints"; }
+    else if (how == 1) { Constraint_System cs; for (size_t i = 0; i < cv.size(); ++i) cs.insert(cv[i]); T->refine_with_constraints(cs); T->add_space_dimensions_and_embed(2); T->remove_higher_space_dimensions(n); hs = "refine + dimension round trip"; }
+    else if (how == 2 && n > 0) { for (size_t i = 0; i < cv.size(); ++i) T->add_constraint(cv[i]); int v = rnd(0, n - 1); T->affine_image(Variable(v), Variable(v) + 3, Coefficient(1)); T->affine_image(Variable(v), 2 * Variable(v) - 6, Coefficient(2)); hs = "affine round trip"; }
+    else if (how == 3) { for (size_t i = 0; i < cv.size(); ++i) T->add_constraint(cv[i]); BP u(T->clone()); T->upper_bound_assign(*u); T->intersection_assign(*u); BP e(A.make(n, true)); T->upper_bound_assign(*e); T->difference_assign(*e); hs = "idempotent lattice operations"; }
+    else { Constraint_System cs; for (size_t i = 0; i < cv.size(); ++i) cs.insert(cv[i]); if ((int) cs.space_dimension() < n) cs.insert(0 * Variable(n - 1) >= -1); T = BP(A.from_constraints(cs, coin())); hs = "Box(cs)"; }
+  }
+  tr(c.pre + ".twin(" + hs + ")"); hx::count("twins");
+  if (nontrivial(c.clsA)) hx::distinct("twin|" + std::to_string(how) + "|" + c.stl + "|" + c.clsA);
+  Shadow ST; if (!observe(*T, ST, "twin")) return;
+  checked();
+  if (!same_shadow(ST, SA)) { violation("C04.exact.box.twin_construction", "twin built by " + hs + " denotes " + show(ST) + " instead of " + show(SA)); return; }
+  BP Ac(A.clone());
+  BoxI& X = *Ac; BoxI& Y = *T;
+  checked(4);
+  if (!X.equals(Y) || !Y.equals(X)) { violation("C04.pred.box.equals:twin", "equal sets compare different (" + hs + "); " + show(SA) + "; status " + c.stl + " vs " + status_word(Y)); return; }
+  if (!X.contains(Y) || !Y.contains(X)) { violation("C04.pred.box.contains:twin", "equal sets do not contain each other (" + hs + "); " + show(SA)); return; }
+  if (X.strictly_contains(Y) || Y.strictly_contains(X)) { violation("C04.pred.box.strictly_contains:twin", "equal sets strictly contain each other (" + hs + "); " + show(SA)); return; }
+  if (X.is_disjoint_from(Y) != SA.empty) { violation("C04.pred.box.is_disjoint_from:twin", hs + "; " + show(SA)); return; }
+  std::ostringstream a, b;
+  a << X.is_empty() << X.is_universe() << X.is_bounded() << X.is_topologically_closed() << X.is_discrete() << X.affine_dimension() << X.contains_integer_point();
+  b << Y.is_empty() << Y.is_universe() << Y.is_bounded() << Y.is_topologically_closed() << Y.is_discrete() << Y.affine_dimension() << Y.contains_integer_point();
+  for (int i = 0; i < n; ++i) if (!SA.empty) { a << X.constrains(Variable(i)); b << Y.constrains(Variable(i)); }
+  for (int r = 0; r < 3; ++r) {
+    Linear_Expression e = rexpr(n, 30); Coefficient n1, d1, n2, d2; bool m1 = false, m2 = false;
+    bool o1 = X.maximize(e, n1, d1, m1), o2 = Y.maximize(e, n2, d2, m2);
+    a << o1; b << o2; if (o1 && o2) { a << ref::toQ(n1) / ref::toQ(d1) << m1; b << ref::toQ(n2) / ref::toQ(d2) << m2; }
+    Constraint cc = gen_con(n, true); a << str(X.relation_with(cc)); b << str(Y.relation_with(cc));
+    Generator g = rgen(n, true, false); a << str(X.relation_with(g)); b << str(Y.relation_with(g));
+  }
+  checked();
+  if (a.str() != b.str()) violation("C04.pred.box.twin_answers", "original " + a.str() + " twin " + b.str() + " (" + hs + "); " + show(SA));
+  (void) sA;
+}
+
+// ---------- dimension-changing operators (on a scratch clone) ----------
+static void dims_op(StepCtx& c) {
+  const BoxI& A = *c.A; const BoxI& B = *c.B; const int n = c.n; const Sys& sA = c.sA; const Sys& sB = c.sB;
+  BP Tm(A.clone()); StepCtx d = c; d.A = Tm.get();
+  int which = rnd(0, 6); std::ostringstream t; t << c.pre;
+  const std::string ecls = (c.SA.empty && c.stl.find("+EM") == std::string::npos) ? "receiver-empty-unmarked" : "";
+  if (which == 0) {
+    int m = rnd(0, 2); bool proj = coin(); std::string nm = proj ? "add_space_dimensions_and_project" : "add_space_dimensions_and_embed";
+    t << ".tmp." << nm << "(" << m << ")"; tr(t.str()); note_op(c, nm, "", false);
+    if (proj) Tm->add_space_dimensions_and_project(m); else Tm->add_space_dimensions_and_embed(m);
+    if (Tm->dim() != n + m) { violation(key_sound(nm, "dimension"), "wrong space dimension"); return; }
+    finish(d, nm, ecls, tgt(ref::def_add_dims(sA, n, m, proj)), 1, false);
+  } else if (which == 1) {
+    std::vector<int> keep; Variables_Set vs; for (int i = 0; i < n; ++i) { if (coin(40)) vs.insert(Variable(i)); else keep.push_back(i); }
+    t << ".tmp.remove_space_dimensions(" << str(vs) << ")"; tr(t.str()); note_op(c, "remove_space_dimensions", "", false);
+    Tm->remove_space_dimensions(vs);
+    if (Tm->dim() != (int) keep.size()) { violation(key_sound("remove_space_dimensions", "dimension"), "wrong space dimension"); return; }
+    finish(d, "remove_space_dimensions", ecls, tgt(ref::def_project_onto(sA, n, keep)), 1, false);
+  } else if (which == 2) {
+    int k = rnd(0, n); std::vector<int> keep; for (int i = 0; i < k; ++i) keep.push_back(i);
+    t << ".tmp.remove_higher_space_dimensions(" << k << ")"; tr(t.str()); note_op(c, "remove_higher_space_dimensions", "", false);
+    Tm->remove_higher_space_dimensions(k);
+    if (Tm->dim() != k) { violation(key_sound("remove_higher_space_dimensions", "dimension"), "wrong space dimension"); return; }
+    finish(d, "remove_higher_space_dimensions", ecls, tgt(ref::def_project_onto(sA, n, keep)), 1, false);
+  } else if (which == 3 && n >= 1) {
+    int i = rnd(0, n - 1), m = rnd(0, 2);
+    t << ".tmp.expand_space_dimension(" << str(Variable(i)) << "," << m << ")"; tr(t.str()); note_op(c, "expand_space_dimension", "", false);
+    Tm->expand_space_dimension(Variable(i), m);
+    if (Tm->dim() != n + m) { violation(key_sound("expand_space_dimension", "dimension"), "wrong space dimension"); return; }
+    finish(d, "expand_space_dimension", ecls, tgt(ref::def_expand(sA, n, i, m)), 1, false);
+  } else if (which == 4 && n >= 2) {
+    int i = rnd(0, n - 1); std::vector<int> J; Variables_Set vs; for (int j = 0; j < n; ++j) if (j != i && coin(60)) { J.push_back(j); vs.insert(Variable(j)); }
+    t << ".tmp.fold_space_dimensions(" << str(vs) << "," << str(Variable(i)) << ")"; tr(t.str()); note_op(c, "fold_space_dimensions", "", false);
+    Tm->fold_space_dimensions(vs, Variable(i)); int k = n - (int) J.size();
+    if (Tm->dim() != k) { violation(key_sound("fold_space_dimensions", "dimension"), "wrong space dimension"); return; }
+    // union over the sources s in J + {i} of the projection that puts coordinate s into the slot of i
+    std::vector<int> keepidx; for (int j = 0; j < n; ++j) if (std::find(J.begin(), J.end(), j) == J.end()) keepidx.push_back(j);
+    std::vector<int> srcs = J; srcs.push_back(i);
+    Target T; T.n = k;
+    for (size_t s = 0; s < srcs.size(); ++s) { std::vector<int> keep(k); for (int j = 0; j < k; ++j) keep[j] = (keepidx[j] == i) ? srcs[s] : keepidx[j]; T.pieces.push_back(ref::def_project_onto(sA, n, keep)); }
+    finish(d, "fold_space_dimensions", ecls, T, 2, false);
+  } else if (which == 5) {
+    t << ".tmp.concatenate_assign(#" << c.bi << ")"; tr(t.str()); note_op(c, "concatenate_assign", "", true);
+    Tm->concatenate_assign(B);
+    if (Tm->dim() != 2 * n) { violation(key_sound("concatenate_assign", "dimension"), "wrong space dimension"); return; }
+    finish(d, "concatenate_assign", ecls, tgt(ref::def_concat(sA, n, sB, n)), 1, true);
+  } else if (which == 6 && n >= 1) {
+    Partial_Function pf; std::vector<int> img(n, -1); std::vector<int> order; for (int j = 0; j < n; ++j) order.push_back(j); std::shuffle(order.begin(), order.end(), hx::rng());
+    int k = rnd(0, n); for (int j = 0; j < k; ++j) img[order[j]] = j;
+    std::ostringstream ms; for (int j = 0; j < n; ++j) if (img[j] >= 0) { pf.insert(j, img[j]); ms << j << "->" << img[j] << " "; }
+    t << ".tmp.map_space_dimensions(" << ms.str() << ")"; tr(t.str()); note_op(c, "map_space_dimensions", "", false);
+    Tm->map_space_dimensions(pf);
+    if (Tm->dim() != k) { violation(key_sound("map_space_dimensions", "dimension"), "wrong space dimension"); return; }
+    finish(d, "map_space_dimensions", ecls, tgt(ref::def_map_dims(sA, n, img, k)), 1, false);
+  }
+}
+
+// ---------- constructors from other domains ----------
+static const char* const CCN[3] = { "POLYNOMIAL", "SIMPLEX", "ANY" };
+static Constraint shape_con(int n, bool oct) {   // a constraint representable by a BD shape / octagon
+  int i = rnd(0, n - 1), j = rnd(0, n - 1);
+  mpz_class b = coin(88) ? mpz_class(rnd(-6, 6)) : big_num();
+  int form = (n == 1 || i == j) ? 0 : rnd(0, oct ? 3 : 1);
+  Linear_Expression e;
+  switch (form) { case 0: e = (coin() ? 1 : -1) * Variable(i); break; case 1: e = Variable(i) - Variable(j); break; case 2: e = Variable(i) + Variable(j); break; default: e = -Variable(i) - Variable(j); break; }
+  if (form == 0 && coin(15)) { mpz_class d = big_den(); e *= Coefficient(d); }
+  return coin(80) ? Constraint(e <= Coefficient(b)) : Constraint(e == Coefficient(b));
+}
+template <typename S> static bool build_shape(S& s, int n, bool oct, std::string& txt, Sys& seen) {
+  int k = rnd(0, 5); std::ostringstream o;
+  for (int i = 0; i < k && n > 0; ++i) { Constraint cc = shape_con(n, oct); o << (i ? ", " : "") << str(cc); s.refine_with_constraint(cc); }
+  txt = o.str();
+  S cp(s); seen = ref::conv(cp.constraints(), n);   // the source's own denotation
+  return true;
+}
+// Replaces pool[ai] by a box constructed from another domain; returns false when nothing was built.
+static bool construct(StepCtx& c, BP& slot) {
+  const BoxI& A = *c.A; const int n = c.n;
+  int which = rnd(0, 11); std::ostringstream t; t << c.pre << " = ";
+  int cc = rnd(0, 2); Complexity_Class CC = cc == 0 ? POLYNOMIAL_COMPLEXITY : cc == 1 ? SIMPLEX_COMPLEXITY : ANY_COMPLEXITY;
+  BP R; Target T; T.n = n; std::string name, cls; bool best = false; std::string srctxt;
+  if (which <= 2) { // C / NNC polyhedron
+    bool nnc = coin(); bool fromgens = coin(35);
+    std::unique_ptr<Polyhedron> ph;
+    if (nnc) ph.reset(new NNC_Polyhedron(n, fromgens ? EMPTY : UNIVERSE)); else ph.reset(new C_Polyhedron(n, fromgens ? EMPTY : UNIVERSE));
+    std::ostringstream o;
+    if (fromgens) { int k = rnd(1, 4); for (int i = 0; i < k; ++i) { Generator g = rgen(n, nnc, i == 0); o << (i ? ", " : "") << str(g); ph->add_generator(g); } }
+    else { int k = rnd(0, 4); for (int i = 0; i < k; ++i) { Constraint q = (n > 0 && coin(35)) ? itv_con(n, nnc) : gen_con(n, nnc); o << (i ? ", " : "") << str(q); ph->add_constraint(q); } if (coin(25)) (void) ph->minimized_generators(); }
+    Sys src; if (nnc) { NNC_Polyhedron cp(static_cast<const NNC_Polyhedron&>(*ph)); src = ref::conv(cp.constraints(), n); } else { C_Polyhedron cp(static_cast<const C_Polyhedron&>(*ph)); src = ref::conv(cp.constraints(), n); }
+    name = std::string("Box(") + (nnc ? "NNC_Polyhedron" : "C_Polyhedron") + ")"; cls = CCN[cc];
+    t << name << "{" << o.str() << "}, " << CCN[cc]; tr(t.str());
+    R.reset(A.from_polyhedron(*ph, CC)); T = tgt(n, src); best = (CC == ANY_COMPLEXITY); srctxt = show(src);
+  } else if (which == 3) { // generator system
+    Generator_System gs; std::ostringstream o; Gens G; int k = rnd(0, 4); bool nnc = coin();
+    for (int i = 0; i < k; ++i) { Generator g = rgen(n, nnc, i == 0); o << (i ? ", " : "") << str(g); gs.insert(g); G.push_back(ref::conv(g, n)); }
+    bool rec = coin(30); name = "Box(Generator_System)";
+    t << name << "{" << o.str() << "}" << (rec ? " recycled" : ""); tr(t.str());
+    if (k == 0 && n > 0) return false;   // an empty system has space dimension 0
+    R.reset(A.from_generators(gs, rec));
+    if ((int) R->dim() < n) R->add_space_dimensions_and_project(n - R->dim());
+    T = tgt(esys_of_gens(n, G)); best = true; srctxt = o.str();
+  } else if (which == 4) { // constraint system (interval constraints)
+    Constraint_System cs; Sys src; std::ostringstream o; int k = rnd(0, 4);
+    for (int i = 0; i < k; ++i) { Constraint q = (n == 0 || coin(8)) ? Constraint(Linear_Expression(rnd(-1, 2)) >= 0) : itv_con(n, TI.open); o << (i ? ", " : "") << str(q); cs.insert(q); src.push_back(ref::conv(q, n)); }
+    bool rec = coin(30); name = "Box(Constraint_System)";
+    t << name << "{" << o.str() << "}" << (rec ? " recycled" : ""); tr(t.str());
+    R.reset(A.from_constraints(cs, rec));
+    if ((int) R->dim() < n) R->add_space_dimensions_and_embed(n - R->dim());
+    T = tgt(n, src); best = true; srctxt = show(src);
+  } else if (which == 5) { // congruence system (interval equalities)
+    Congruence_System cgs; Sys src; std::ostringstream o; int k = rnd(0, 3);
+    for (int i = 0; i < k; ++i) { Congruence g = (n == 0 || coin(10)) ? Congruence((Linear_Expression(rnd(0, 1)) %= 0) / (coin() ? 0 : 2)) : Congruence((Coefficient(rnd(1, 3)) * Variable(rnd(0, n - 1)) %= Coefficient(inhom())) / 0); o << (i ? ", " : "") << str(g); cgs.insert(g); if (g.is_equality()) src.push_back(con_of_cg_equality(g, n)); else if (g.is_inconsistent()) { Vec z(n); src.push_back(Con(z, Q(-1), ref::LE)); } }
+    bool rec = coin(30); name = "Box(Congruence_System)";
+    t << name << "{" << o.str() << "}" << (rec ? " recycled" : ""); tr(t.str());
+    R.reset(A.from_congruences(cgs, rec));
+    if ((int) R->dim() < n) R->add_space_dimensions_and_embed(n - R->dim());
+    T = tgt(n, src); best = true; srctxt = show(src);
+  } else if (which == 6) { // grid, built from generators of our own choice, denotation read from the grid itself
+    Grid gr(n, EMPTY); std::ostringstream o; int k = rnd(0, 3);
+    if (coin(90)) {
+      Linear_Expression pe; for (int i = 0; i < n; ++i) if (coin(70)) pe += Coefficient(coin(90) ? mpz_class(rnd(-5, 5)) : big_num()) * Variable(i);
+      Coefficient pd = coin(80) ? Coefficient(rnd(1, 3)) : Coefficient(big_den());
+      gr.add_grid_generator(grid_point(pe, pd)); o << str(grid_point(pe, pd));
+      for (int i = 0; i < k && n > 0; ++i) { Linear_Expression e; for (int j = 0; j < n; ++j) if (coin(45)) e += rnd(-3, 3) * Variable(j); if (e.all_homogeneous_terms_are_zero()) e += Variable(rnd(0, n - 1)); Grid_Generator g = coin(65) ? parameter(e, Coefficient(rnd(1, 3))) : grid_line(e); o << ", " << str(g); gr.add_grid_generator(g); }
+    }
+    if (coin(20)) (void) gr.minimized_congruences();
+    name = "Box(Grid)"; t << name << "{" << o.str() << "}"; tr(t.str());
+    Grid gc(gr); bool gempty = gc.is_empty();
+    std::vector<Vec> pts, dirs;   // points and free directions
+    if (!gempty) { const Grid_Generator_System& ggs = gc.grid_generators();
+      for (Grid_Generator_System::const_iterator i = ggs.begin(); i != ggs.end(); ++i) { Vec v(n); Q dv = i->is_line() ? Q(1) : ref::toQ(i->divisor()); for (int j = 0; j < n && j < (int) i->space_dimension(); ++j) v[j] = ref::toQ(i->coefficient(Variable(j))) / dv; if (i->is_point()) pts.push_back(v); else dirs.push_back(v); } }
+    R.reset(A.from_grid(gr, CC));
+    Shadow RS; if (!observe(*R, RS, name)) return false;
+    hx::count("op." + name); checked();
+    // per axis: fixed value if no parameter/line moves along it, otherwise unbounded both ways
+    if (gempty || pts.empty()) { if (TI.exact && !RS.empty) violation("C04.best.box." + name, "empty grid but box " + show(RS)); }
+    else if (RS.empty) violation(key_sound(name, ""), "grid {" + o.str() + "} is not empty but the box is");
+    else for (int k2 = 0; k2 < n; ++k2) {
+      bool moves = false; for (size_t j = 0; j < dirs.size(); ++j) if (dirs[j][k2] != 0) moves = true;
+      const Itv& iv = RS.iv[k2];
+      if (moves) { if (!iv.lo.inf || !iv.hi.inf) { violation(key_sound(name, ""), "grid {" + o.str() + "} is unbounded along dimension " + std::to_string(k2) + " but the box has " + show(iv)); break; } }
+      else { Q v = pts[0][k2]; if (!member(iv, v)) { violation(key_sound(name, ""), "grid point coordinate " + v.get_str() + " of dimension " + std::to_string(k2) + " outside " + show(iv) + "; grid {" + o.str() + "}"); break; }
+        if (TI.exact && !(same_bnd(iv.lo, iv.hi) && !iv.lo.inf && iv.lo.v == v && !iv.lo.open)) { violation("C04.best.box." + name, "dimension " + std::to_string(k2) + " is the constant " + v.get_str() + " on the grid but the box has " + show(iv)); break; } }
+    }
+    slot = std::move(R); return true;
+  } else if (which <= 9) { // BD shapes and octagons over mpq / double / int8
+    bool oct = coin(); int ty = rnd(0, 2); Sys src; std::string txt;
+    static const char* const TN[3] = { "mpq_class", "double", "int8_t" };
+    name = std::string("Box(") + (oct ? "Octagonal_Shape<" : "BD_Shape<") + TN[ty] + ">)"; cls = CCN[cc];
+    try {
+      if (!oct) { if (ty == 0) { BD_Shape<mpq_class> s(n); build_shape(s, n, false, txt, src); t << name << "{" << txt << "}"; tr(t.str()); R.reset(A.from_bds(s, CC)); }
+        else if (ty == 1) { BD_Shape<double> s(n); build_shape(s, n, false, txt, src); t << name << "{" << txt << "}"; tr(t.str()); R.reset(A.from_bds(s, CC)); }
+        else { BD_Shape<int8_t> s(n); build_shape(s, n, false, txt, src); t << name << "{" << txt << "}"; tr(t.str()); R.reset(A.from_bds(s, CC)); } }
+      else { if (ty == 0) { Octagonal_Shape<mpq_class> s(n); build_shape(s, n, true, txt, src); t << name << "{" << txt << "}"; tr(t.str()); R.reset(A.from_oct(s, CC)); }
+        else if (ty == 1) { Octagonal_Shape<double> s(n); build_shape(s, n, true, txt, src); t << name << "{" << txt << "}"; tr(t.str()); R.reset(A.from_oct(s, CC)); }
+        else { Octagonal_Shape<int8_t> s(n); build_shape(s, n, true, txt, src); t << name << "{" << txt << "}"; tr(t.str()); R.reset(A.from_oct(s, CC)); } }
+    } catch (const std::domain_error&) { hx::inconclusive("source_unobservable"); return false; }
+    T = tgt(n, src); best = (ty == 0); srctxt = show(src);   // closure of a shape over an inexact T is itself rounded: best only for mpq sources
+  } else { // boxes over another interval type
+    bool dbl = (which == 10); Sys src; std::ostringstream o; int k = rnd(0, 4);
+    name = dbl ? "Box(Double_Box)" : "Box(Rational_Box)";
+    if (dbl) { Double_Box s(n); for (int i = 0; i < k && n > 0; ++i) { Constraint q = itv_con(n, true); o << (i ? ", " : "") << str(q); s.refine_with_constraint(q); } if (coin(10)) s = Double_Box(n, EMPTY); Double_Box cp(s); src = ref::conv(cp.constraints(), n); t << name << "{" << o.str() << "}"; tr(t.str()); R.reset(A.from_box(s, CC)); }
+    else { Rational_Box s(n); for (int i = 0; i < k && n > 0; ++i) { Constraint q = itv_con(n, true); o << (i ? ", " : "") << str(q); s.refine_with_constraint(q); } if (coin(10)) s = Rational_Box(n, EMPTY); Rational_Box cp(s); src = ref::conv(cp.constraints(), n); t << name << "{" << o.str() << "}"; tr(t.str()); R.reset(A.from_box(s, CC)); }
+    T = tgt(n, src); best = true; srctxt = show(src);
+  }
+  hx::count("op." + name);
+  hx::distinct("ctor|" + INST + "|" + name + "|" + cls + "|" + std::to_string(n));
+  if (R->dim() != n) { violation(key_sound(name, "dimension"), "constructed box has dimension " + std::to_string(R->dim()) + " instead of " + std::to_string(n)); return false; }
+  Shadow RS; if (!observe(*R, RS, name)) return false;
+  std::string ctx = "source " + srctxt;
+  if (check_sound(key_sound(name, cls), T, RS, ctx) && TI.exact && best) check_best("C04.best.box." + name, T, RS, ctx);
+  slot = std::move(R);
+  return true;
+}
+
+// ---------- C17: wrap_assign / drop_some_non_integer_points on boxes ----------
+static mpz_class zfloor(const Q& q) { mpz_class r; mpz_fdiv_q(r.get_mpz_t(), q.get_num_mpz_t(), q.get_den_mpz_t()); return r; }
+static mpz_class zceil(const Q& q) { mpz_class r; mpz_cdiv_q(r.get_mpz_t(), q.get_num_mpz_t(), q.get_den_mpz_t()); return r; }
+// integer candidates of one interval: all of them when few, otherwise both ends and random ones in between
+static void int_candidates(const Itv& i, std::vector<mpz_class>& out, bool& complete, const mpz_class& center) {
+  out.clear(); complete = true;
+  if (itv_empty(i)) return;
+  mpz_class L, U; bool hasL = !i.lo.inf, hasU = !i.hi.inf;
+  if (hasL) { L = zceil(i.lo.v); if (i.lo.open && Q(L) == i.lo.v) ++L; }
+  if (hasU) { U = zfloor(i.hi.v); if (i.hi.open && Q(U) == i.hi.v) --U; }
+  if (!hasL || !hasU) {
+    complete = false;
+    if (hasL) { for (int d = 0; d < 5; ++d) out.push_back(L + d); out.push_back(L + 1000); }
+    else if (hasU) { for (int d = 0; d < 5; ++d) out.push_back(U - d); out.push_back(U - 1000); }
+    else for (int d = -3; d <= 3; ++d) out.push_back(center + d);
+    return;
+  }
+  if (L > U) return;
+  mpz_class ext = U - L;
+  if (ext <= 300) { for (mpz_class z = L; z <= U; ++z) out.push_back(z); return; }
+  complete = false;
+  for (int d = 0; d < 6; ++d) { out.push_back(L + d); out.push_back(U - d); }
+  for (int r = 0; r < 30; ++r) { mpz_class off = ext * rnd(1, 9999) / 10000; out.push_back(L + off); }
+}
+// member values of an interval for a dimension that is not required to be integral
+static void any_candidates(const Itv& i, std::vector<Q>& out) {
+  out.clear(); if (itv_empty(i)) return;
+  std::vector<Q> cand;
+  if (!i.lo.inf && !i.hi.inf) { cand.push_back(i.lo.v); cand.push_back(i.hi.v); cand.push_back((i.lo.v + i.hi.v) / 2); cand.push_back(Q(zfloor((i.lo.v + i.hi.v) / 2))); }
+  else if (!i.lo.inf) { cand.push_back(i.lo.v); cand.push_back(i.lo.v + Q(1, 2)); cand.push_back(Q(zceil(i.lo.v) + 1)); }
+  else if (!i.hi.inf) { cand.push_back(i.hi.v); cand.push_back(i.hi.v - Q(1, 2)); cand.push_back(Q(zfloor(i.hi.v) - 1)); }
+  else { cand.push_back(Q(0)); cand.push_back(Q(1, 2)); }
+  for (size_t j = 0; j < cand.size(); ++j) if (member(i, cand[j]) && std::find(out.begin(), out.end(), cand[j]) == out.end()) out.push_back(cand[j]);
+}
+// Enumerates points of S that are integral on the dimensions in `intdims`; calls f until it returns false.
+static unsigned long enumerate_points(const Shadow& S, const std::vector<bool>& intdims, const mpz_class& center, const std::function<bool(const Vec&)>& f) {
+  int n = S.n; if (S.empty) return 0;
+  std::vector<std::vector<Q> > cand(n);
+  for (int k = 0; k < n; ++k) {
+    if (intdims[k]) { std::vector<mpz_class> z; bool complete; int_candidates(S.iv[k], z, complete, center); for (size_t j = 0; j < z.size(); ++j) cand[k].push_back(Q(z[j])); if (!complete) hx::count("int_window_sampled"); }
+    else any_candidates(S.iv[k], cand[k]);
+    if (cand[k].empty()) return 0;
+  }
+  double total = 1; for (int k = 0; k < n; ++k) total *= cand[k].size();
+  unsigned long done = 0; Vec x(n);
+  if (total <= 3000) {
+    std::vector<size_t> idx(n, 0);
+    for (;;) {
+      for (int k = 0; k < n; ++k) x[k] = cand[k][idx[k]];
+      if (!member(S, x)) { violation("harness.bug.enumerated_point", show(x) + " not in " + show(S)); return done; }
+      ++done; if (!f(x)) return done;
+      int k = 0; while (k < n) { if (++idx[k] < cand[k].size()) break; idx[k] = 0; ++k; }
+      if (k == n) break;
+    }
+  } else {
+    for (int r = 0; r < 2500; ++r) {
+      for (int k = 0; k < n; ++k) x[k] = cand[k][hx::rng()() % cand[k].size()];
+      if (!member(S, x)) { violation("harness.bug.enumerated_point", show(x) + " not in " + show(S)); return done; }
+      ++done; if (!f(x)) return done;
+    }
+  }
+  return done;
+}
+static bool is_integer(const Q& q) { return q.get_den() == 1; }
+
+// special argument for wrap_assign: small extents astride 0, +-2^(w-1), 2^w, spanning 1-4 quadrants; some unbounded
+static BoxI* wrap_argument(const BoxI& proto, int n, int w, bool sgn, std::string& txt) {
+  BoxI* X = proto.make(n, false); std::ostringstream o;
+  mpz_class M = pow2(w), H = pow2(w - 1);
+  for (int k = 0; k < n; ++k) {
+    mpz_class centers[9] = { mpz_class(0), H, mpz_class(-H), M, mpz_class(-M), mpz_class(H + M), (sgn ? mpz_class(-H - M) : mpz_class(2 * M)), mpz_class(3 * M), mpz_class(H / 2) };
+    mpz_class c = centers[rnd(0, 8)] + rnd(-4, 4);
+    int shape = rnd(0, 99);
+    mpz_class ext;
+    if (shape < 60) ext = rnd(0, 8);
+    else if (shape < 72) ext = M + rnd(-3, 3);            // about one full period
+    else if (shape < 78) ext = M * rnd(2, 3) + rnd(-2, 2); // several periods
+    else if (shape < 84) ext = H + rnd(-3, 3);
+    else ext = -1;                                         // unbounded on one or both sides
+    bool half = !TI.integer && coin(12), open = TI.open && coin(15);
+    if (ext >= 0 || coin()) { Constraint q = half ? Constraint(2 * Variable(k) >= Coefficient(2 * c + 1)) : open ? Constraint(Variable(k) > Coefficient(c - 1)) : Constraint(Variable(k) >= Coefficient(c)); o << str(q) << " "; X->refine_with_constraint(q); }
+    if (ext >= 0 || coin()) { mpz_class u = c + (ext >= 0 ? ext : mpz_class(0)); Constraint q = (open && coin()) ? Constraint(Variable(k) < Coefficient(u + 1)) : Constraint(Variable(k) <= Coefficient(u)); o << str(q) << " "; X->refine_with_constraint(q); }
+  }
+  txt = o.str(); return X;
+}
+
+static void integer_ops(StepCtx& c, BP& slot) {
+  const int n = c.n;
+  int kind = rnd(0, 99);
+  if (n == 0) kind = 99;
+  if (kind < 70) { // wrap_assign
+    static const int WS[4] = { 8, 16, 32, 64 }; int w = WS[rnd(0, 3)]; if (coin(40)) w = 8;
+    bool sgn = coin(); int ov = rnd(0, 2);
+    if (coin(65)) { std::string txt; slot.reset(wrap_argument(*c.A, n, w, sgn, txt)); c.A = slot.get(); tr(c.pre + " = wrap_argument{" + txt + "}"); if (!observe(*c.A, c.SA, "wrap_argument")) return; c.sA = to_sys(c.SA); c.clsA = shape_class(c.SA); c.stl = status_word(*c.A); }
+    const Shadow& SA = c.SA;
+    Variables_Set vars; std::vector<bool> wr(n, false); for (int i = 0; i < n; ++i) if (coin(70)) { vars.insert(Variable(i)); wr[i] = true; }
+    mpz_class M = pow2(w), lo = sgn ? mpz_class(-pow2(w - 1)) : mpz_class(0), hi = sgn ? mpz_class(pow2(w - 1) - 1) : mpz_class(M - 1);
+    // guard: constraints over the space of the wrapped variables
+    Constraint_System guard; std::vector<Constraint> gv; bool use_guard = coin(40); int gdim = (int) vars.space_dimension();
+    if (use_guard && gdim > 0) { int cnt = rnd(1, 2); for (int i = 0; i < cnt; ++i) {
+        int m = rnd(0, 9); Constraint q = Constraint(Linear_Expression(1) >= 0);
+        int v = rnd(0, gdim - 1);
+        mpz_class b = (coin() ? mpz_class((lo + hi) / 2) : coin() ? lo : hi) + rnd(-20, 20);
+        if (m < 7) q = mk_con(Variable(v), rrel(true), Linear_Expression(Coefficient(b)));
+        else if (m < 9 && gdim >= 2) q = mk_con(Variable(0) - Variable(1), rrel(true), Linear_Expression(Coefficient(rnd(-5, 5))));
+        else q = coin(70) ? Constraint(Linear_Expression(1) >= 0) : Constraint(Linear_Expression(-1) >= 0);
+        gv.push_back(q); guard.insert(q); } }
+    else use_guard = false;
+    static const unsigned THR[4] = { 0, 1, 4, 16 }; unsigned thr = THR[rnd(0, 3)]; bool indiv = coin();
+    std::ostringstream t; t << c.pre << ".wrap_assign(" << str(vars) << ", " << w << (sgn ? " signed " : " unsigned ") << (ov == 0 ? "WRAPS" : ov == 1 ? "UNDEFINED" : "IMPOSSIBLE");
+    if (use_guard) { t << ", guard{"; for (size_t i = 0; i < gv.size(); ++i) t << (i ? ", " : "") << str(gv[i]); t << "}"; }
+    t << ", thr=" << thr << (indiv ? ", individually" : ", collectively") << ")"; tr(t.str());
+    hx::count("op.wrap_assign");
+    std::string ovn = ov == 0 ? "wraps" : ov == 1 ? "undefined" : "impossible";
+    if (nontrivial(c.clsA)) hx::distinct("wrap|" + INST + "|" + std::to_string(w) + (sgn ? "s" : "u") + ovn + (use_guard ? "g" : "") + "|" + c.stl + "|" + c.clsA);
+    BP Rb(c.A->clone());
+    Rb->wrap_assign(vars, (Bounded_Integer_Type_Width) w, sgn ? SIGNED_2_COMPLEMENT : UNSIGNED, ov == 0 ? OVERFLOW_WRAPS : ov == 1 ? OVERFLOW_UNDEFINED : OVERFLOW_IMPOSSIBLE, use_guard ? &guard : 0, thr, indiv);
+    Shadow R; if (!observe(*Rb, R, "wrap_assign")) return;
+    Sys GS; for (size_t i = 0; i < gv.size(); ++i) GS.push_back(ref::conv(gv[i], n));
+    checked(); hx::count("wrap_checks");
+    auto wrapv = [&](const mpz_class& z) { mpz_class u; mpz_fdiv_r_2exp(u.get_mpz_t(), z.get_mpz_t(), w); if (sgn && u >= pow2(w - 1)) u -= M; return u; };
+    unsigned long moved = 0;
+    auto classify = [&](const Vec& p, const Vec& q) {
+      int kf = -1; for (int k = 0; k < n; ++k) if (R.empty || !member(R.iv[k], q[k])) { kf = k; break; }
+      std::string cls = ovn;
+      if (kf >= 0) {
+        const Itv& a = SA.iv[kf];
+        bool g = false; for (size_t i = 0; i < gv.size(); ++i) if ((int) gv[i].space_dimension() > kf && gv[i].coefficient(Variable(kf)) != 0) g = true;
+        if (!wr[kf]) cls += "+unwrapped-dim";
+        else if (a.lo.inf || a.hi.inf) cls += "+unbounded";
+        else { Q e = a.hi.v - a.lo.v; cls += e < Q(M) - 1 ? "+extent<period" : e == Q(M) ? "+extent=period" : e < Q(M) ? "+extent=period-1" : "+extent>period";
+          mpz_class ql = zfloor((a.lo.v - Q(lo)) / Q(M)), qh = zfloor((a.hi.v - Q(lo)) / Q(M)); cls += ql == qh ? "+1quadrant" : qh - ql == 1 ? "+2quadrants" : "+3+quadrants"; }
+        if (g) cls += "+guard";
+      }
+      (void) p; return cls;
+    };
+    unsigned long pts = enumerate_points(SA, wr, (lo + hi) / 2, [&](const Vec& p) {
+      std::vector<Vec> must;
+      bool inr = true; for (int k = 0; k < n; ++k) if (wr[k] && (p[k] < Q(lo) || p[k] > Q(hi))) inr = false;
+      if (ov == 0) { Vec q = p; for (int k = 0; k < n; ++k) if (wr[k]) q[k] = Q(wrapv(p[k].get_num())); if (q != p) ++moved; must.push_back(q); }
+      else if (ov == 1) {
+        if (inr) must.push_back(p);
+        else { mpz_class cand[6] = { lo, hi, mpz_class(0), mpz_class(1), mpz_class(lo + (hi - lo) / 3), mpz_class(hi - 5) };
+          for (int ci = 0; ci < 6; ++ci) { if (cand[ci] < lo || cand[ci] > hi) continue; Vec q = p; for (int k = 0; k < n; ++k) if (wr[k] && (p[k] < Q(lo) || p[k] > Q(hi))) q[k] = Q(cand[ci]); must.push_back(q); } }
+      } else { if (inr) must.push_back(p); }
+      for (size_t j = 0; j < must.size(); ++j) {
+        const Vec& q = must[j];
+        if (use_guard && !ref::sat(GS, q)) continue;
+        if (!member(R, q)) {
+          std::string cls = classify(p, q);
+          violation("C17.box." + INST + ".wrap_assign.lost_point:" + cls, "integer point " + show(p) + " of the argument " + show(SA) + " requires " + show(q) + " in the result, but the result is " + show(R));
+          return false;
+        }
+      }
+      return true;
+    });
+    hx::count("int_points_checked", pts); hx::count("int_points_moved_by_wrap", moved);
+    return;
+  }
+  if (kind < 88) { // drop_some_non_integer_points
+    const Shadow& SA = c.SA;
+    Variables_Set vs; bool all = coin(); std::vector<bool> des(n, all); if (!all) for (int i = 0; i < n; ++i) if (coin()) { vs.insert(Variable(i)); des[i] = true; }
+    Complexity_Class cc = (Complexity_Class) rnd(0, 2);
+    tr(c.pre + ".tmp.drop_some_non_integer_points(" + (all ? std::string("all") : str(vs)) + ")"); hx::count("op.drop_some_non_integer_points");
+    if (nontrivial(c.clsA)) hx::distinct("drop|" + INST + "|" + (all ? "all" : "set") + "|" + c.stl + "|" + c.clsA);
+    BP Rb(c.A->clone());
+    if (all) Rb->drop_some_non_integer_points(cc); else Rb->drop_some_non_integer_points(vs, cc);
+    Shadow R; if (!observe(*Rb, R, "drop_some_non_integer_points")) return;
+    std::string ctx = "argument " + show(SA);
+    if (!check_sound("C17.box." + INST + ".drop_some_non_integer_points.not_subset", tgt(n, to_sys(R)), SA, "result " + show(R) + " must be contained in the " + ctx)) return;
+    checked();
+    unsigned long pts = enumerate_points(SA, des, mpz_class(0), [&](const Vec& p) {
+      if (!member(R, p)) { int kf = 0; for (int k = 0; k < n; ++k) if (R.empty || !member(R.iv[k], p[k])) { kf = k; break; }
+        std::string cls = des[kf] ? "designated-dim" : "other-dim";
+        violation("C17.box." + INST + ".drop_some_non_integer_points.lost_integer_point:" + cls, "point " + show(p) + " (integral on the designated dimensions) of the " + ctx + " is missing from the result " + show(R)); return false; }
+      return true; });
+    hx::count("int_points_checked", pts);
+    return;
+  }
+  { // contains_integer_point (also reachable from run_queries)
+    const Shadow& SA = c.SA; bool ne = !SA.empty;
+    tr(c.pre + ".contains_integer_point()");
+    bool cip = c.A->contains_integer_point(); bool truth = ne; if (ne) for (int k = 0; k < n; ++k) if (!has_int(SA.iv[k])) truth = false;
+    checked(); hx::count("q.contains_integer_point");
+    if (cip != truth) { std::string cls = !ne ? "empty-receiver" : cip ? "true-but-none" : "false-but-exists"; violation("C17.box." + INST + ".contains_integer_point.wrong:" + cls, std::string("PPL ") + (cip ? "true" : "false") + "; receiver " + show(SA) + "; status " + c.stl); }
+  }
+}
+
+// ---------- a random initial box ----------
+static BoxI* random_box(const BoxI& proto, int n, std::string& txt) {
+  std::ostringstream o; BoxI* X = 0; int how = rnd(0, 99);
+  if (how < 50 || (n == 0 && how < 80)) {
+    X = proto.make(n, false); int k = n == 0 ? rnd(0, 1) : rnd(0, 2 * n);
+    for (int i = 0; i < k; ++i) { Constraint q = n == 0 ? Constraint(Linear_Expression(rnd(-1, 1)) >= 0) : itv_con(n, TI.open); o << (i ? ", " : "") << str(q); if (coin()) X->add_constraint(q); else X->refine_with_constraint(q); }
+  } else if (how < 65) {
+    Generator_System gs; int k = rnd(1, 3); bool nnc = TI.open && coin();
+    for (int i = 0; i < k; ++i) { Generator g = rgen(n, nnc, i == 0); o << (i ? ", " : "") << str(g); gs.insert(g); }
+    X = proto.from_generators(gs, false); if (X->dim() < n) X->add_space_dimensions_and_project(n - X->dim());
+    txt = "gens{" + o.str() + "}"; return X;
+  } else if (how < 72) { X = proto.make(n, true); o << "EMPTY"; }
+  else if (how < 80) { // empty, not marked
+    X = proto.make(n, false); int v = rnd(0, n - 1);
+    if (TI.open && coin()) { X->add_constraint(Variable(v) > 2); X->add_constraint(Variable(v) <= 2); o << "x>2,x<=2"; }
+    else { X->add_constraint(Variable(v) >= 3); X->add_constraint(Variable(v) <= 2); o << "x>=3,x<=2"; }
+  } else { // bounded box near the limits of the boundary type
+    X = proto.make(n, false);
+    for (int k = 0; k < n; ++k) { mpz_class lo = coin(60) ? mpz_class(rnd(-8, 8)) : big_num(); mpz_class ext = rnd(0, 9); mpz_class d = coin(75) ? mpz_class(1) : big_den();
+      Constraint q1 = Coefficient(d) * Variable(k) >= Coefficient(lo), q2 = Coefficient(d) * Variable(k) <= Coefficient(lo + ext); o << str(q1) << ", " << str(q2) << "; "; X->refine_with_constraint(q1); X->refine_with_constraint(q2); }
+  }
+  txt = "{" + o.str() + "}"; return X;
+}
+
+static void run_case(uint64_t) {
+  const std::string profile = hx::opt().profile;
+  std::vector<Entry>& tab = table();
+  std::string want = hx::opt().gets("inst", "all");
+  E = 0;
+  if (want == "all") E = &tab[(size_t) (hx::st().cur_case % (long) tab.size())];
+  else for (size_t i = 0; i < tab.size(); ++i) if (tab[i].inst == want) E = &tab[i];
+  if (!E) { fprintf(stderr, "unknown --kv inst=%s\n", want.c_str()); exit(2); }
+  TI = E->ti; INST = E->inst;
+  hx::count("inst." + INST);
+  int dk = rnd(0, 99); int n = dk < 5 ? 0 : dk < 30 ? 1 : dk < 68 ? 2 : 3;
+  if (g_maxdim >= 4 && dk >= 92) n = 4;
+  if (profile == "wrap" && n == 0) n = 1;
+  const int NP = 3;
+  std::vector<BP> pool(NP);
+  BP proto(E->make(0, false));
+  {
+    std::ostringstream o; o << INST << " n=" << n << " init:";
+    for (int i = 0; i < NP; ++i) { std::string txt; pool[i].reset(random_box(*proto, n, txt)); o << " #" << i << "=" << txt; }
+    tr(o.str());
+  }
+  int steps = rnd(4, 12);
+  for (int stp = 0; stp < steps && !hx::st().case_tainted; ++stp) {
+    hx::count("steps");
+    int ai = rnd(0, NP - 1), bi = rnd(0, NP - 1);
+    StepCtx c; c.A = pool[ai].get(); c.B = pool[bi].get(); c.n = n; c.ai = ai; c.bi = bi;
+    std::ostringstream pre; pre << " | #" << ai; c.pre = pre.str();
+    std::string last = "observe";
+    try {
+      Weight_Guard wg(200000000ULL);
+      struct Note { Weight_Guard& g; ~Note() { note_weight("step", g.used()); } } note = { wg };
+      c.stl = status_word(*c.A); hx::count("status." + c.stl);
+      if (!observe(*c.A, c.SA, "pre") || !observe(*c.B, c.SB, "pre")) return;
+      c.sA = to_sys(c.SA); c.sB = to_sys(c.SB); c.clsA = shape_class(c.SA); c.clsB = shape_class(c.SB);
+      int w_mut = 58, w_query = 16, w_conv = 10, w_dims = 7, w_int = 5, w_twin = 4;
+      if (profile == "conv") { w_mut = 25; w_query = 8; w_conv = 50; w_dims = 10; w_int = 5; w_twin = 2; }
+      else if (profile == "pred") { w_mut = 30; w_query = 42; w_conv = 5; w_dims = 5; w_int = 3; w_twin = 15; }
+      else if (profile == "wrap") { w_mut = 25; w_query = 8; w_conv = 4; w_dims = 3; w_int = 60; w_twin = 0; }
+      if (!TI.exact) { w_query += w_twin; w_twin = 0; }
+      int kind = rnd(0, 99);
+      if (kind < w_mut) { last = "mutator"; mutate(c); }
+      else if ((kind -= w_mut) < w_query) { last = "query"; run_queries(c); }
+      else if ((kind -= w_query) < w_conv) { last = "constructor"; construct(c, pool[ai]); }
+      else if ((kind -= w_conv) < w_dims) { last = "dims"; dims_op(c); }
+      else if ((kind -= w_dims) < w_int) { last = "integer"; integer_ops(c, pool[ai]); }
+      else { last = "twin"; twin_check(c); }
+    } catch (const Logical_Timeout&) {
+      std::string t = hx::trace(); size_t p = t.rfind(" | #"); std::string lastop = p == std::string::npos ? t : t.substr(p + 3); size_t a = lastop.find('.'), b = lastop.find('(');
+      std::string opn = (a != std::string::npos && b != std::string::npos && b > a) ? lastop.substr(a + 1, b - a - 1) : last;
+      violation("C03.hang." + INST + "." + opn, "logical-time budget (weight 2e8) exceeded");
+      return;
+    } catch (const std::exception& e) {
+      std::string t = hx::trace(); size_t p = t.rfind(" | #"); std::string lastop = p == std::string::npos ? t : t.substr(p + 3); size_t a = lastop.find_first_of(".="), b = lastop.find_first_of("({", a == std::string::npos ? 0 : a);
+      std::string opn = (a != std::string::npos && b != std::string::npos && b > a) ? lastop.substr(a + 1, b - a - 1) : last;
+      while (!opn.empty() && opn[0] == ' ') opn.erase(0, 1);
+      std::string prop = (opn.find("wrap_assign") != std::string::npos || opn.find("drop_some") != std::string::npos || opn.find("contains_integer") != std::string::npos) ? "C17.box." + INST + "." + opn + ".unexpected_exception:" : "C03.unexpected_exception." + INST + "." + opn + ":";
+      violation(prop + typeid(e).name(), e.what());
+      return;
+    }
+  }
+}
+
+int main(int argc, char** argv) {
+  return hx::main_loop(argc, argv, [&](uint64_t s) {
+      static bool sorted = false;
+      if (!sorted) { std::sort(table().begin(), table().end(), [](const Entry& a, const Entry& b) { return a.order < b.order; }); sorted = true; }
+      g_maxdim = hx::opt().thorough ? 4 : 3; run_case(s); },
+    []() { hx::count("lp_solves", ref::lp_counters().solves); hx::count("lp_pivots", ref::lp_counters().pivots); });
+}
